@@ -20,7 +20,7 @@ pub static DEF: PropDef = PropDef {
     real: &["parser + compiler of `contains` (EmptySearcher / MemchrSearcher / Avx2Searcher<[u8;N]> / boxed Avx2Searcher / MemmemSearcher)", "sliceslice AVX2 search (native)", "USE_AVX2 LazyLock latch incl. the WIREFILTER_USE_AVX2 environment switch", "Filter::execute"],
     stub: &["the random anchor draw (forced by the tape in 3 of 4 runs; observed and recorded in the 4th)", "thread scheduler for the runs that compile inside tasks"],
     assumptions: &["naive windows search is the reference", "this machine has AVX2 (reported per worker in the evidence); on a machine without it both worker groups take the scalar path"],
-    required_probes: &["c10.exec", "c10.hit", "c10.miss", "c10.observe_runs", "c10.compile_in_task", "c10.via_each", "c10.via_fn", "c10.straddle", "c10.nearmiss", "c10.prefix_at_end"],
+    required_probes: &["c10.exec", "c10.hit", "c10.miss", "c10.observe_runs", "c10.compile_in_task", "c10.via_each", "c10.via_fn", "c10.straddle", "c10.nearmiss", "c10.prefix_at_end", "c10.sibling"],
     extra: None,
 };
 
@@ -212,6 +212,22 @@ fn run(ctx: &RunCtx) -> Result<(), Violation> {
     let nl = lit(&needle);
     crate::tr!("needle ({l} bytes): {}", hex(&needle));
 
+    // ---- a sibling pattern alive at the same time: the needle with one bit of one byte flipped (whatever compiled
+    // patterns share - tables, caches, interned searchers - must not confuse two patterns that are almost the same),
+    // compiled before or after the needle's own filters by tape choice
+    let sibling: Option<Vec<u8>> = (l >= 1 && chance(1, 3, "sibling")).then(|| {
+        let mut sb = needle.clone();
+        let at = choose(l, "sibling.at");
+        sb[at] ^= 1 << [0usize, 0, 5, 7, 1][choose(5, "sibling.bit")];
+        sb
+    });
+    let sibling_first = chance(1, 2, "sibling.first");
+    let mut sibling_filter: Option<Filter> = None;
+    if let (Some(sb), true) = (&sibling, sibling_first) {
+        seams::harness(|h| h.anchor_mode = AnchorMode::Force);
+        sibling_filter = Some(compile(&scheme, &format!("b contains {}", lit(sb)), false)?);
+    }
+
     // ---- compile: once per anchor position (force), or with production's own draws (observe)
     let mut compiled: Vec<Compiled> = Vec::new();
     let in_tasks = chance(1, 8, "compile_in_tasks");
@@ -289,6 +305,12 @@ fn run(ctx: &RunCtx) -> Result<(), Violation> {
     compiled.push(Compiled { what: "echo(b)".into(), filter: compile(&scheme, &format!("echo(b) contains {nl}"), sim)?, via: 3 });
     kernel::count("c10.via_each");
     kernel::count("c10.via_fn");
+    if let (Some(sb), false) = (&sibling, sibling_first) {
+        sibling_filter = Some(compile(&scheme, &format!("b contains {}", lit(sb)), false)?);
+    }
+    if sibling.is_some() {
+        kernel::count("c10.sibling");
+    }
 
     // ---- haystacks
     let nh = range(8, 12, "nhay");
@@ -313,6 +335,29 @@ fn run(ctx: &RunCtx) -> Result<(), Violation> {
         ectx.set_field_value(fb, h.clone()).unwrap();
         ectx.set_field_value(farr, Array::from_iter([h.clone(), next.clone(), Vec::new()])).unwrap();
         let want_any = want || naive(next, &needle) || naive(&[], &needle);
+        if let (Some(sb), Some(sf)) = (&sibling, &sibling_filter) {
+            let expect = naive(h, sb);
+            match catch_unwind(AssertUnwindSafe(|| sf.execute(&ectx))) {
+                Ok(Ok(got)) if got == expect => {}
+                Ok(Ok(got)) => {
+                    let path = if wirefilter::verif::simd_active() { "simd" } else { "scalar" };
+                    return Err(v(
+                        "wrong-answer",
+                        format!("{path}/sibling"),
+                        format!(
+                            "pattern {} compiled {} its sibling {}: on haystack {} ({} bytes, class {class}) the engine says {got}, naive search says {expect}",
+                            hex(sb),
+                            if sibling_first { "before" } else { "after" },
+                            hex(&needle),
+                            hex(h),
+                            h.len()
+                        ),
+                    ));
+                }
+                Ok(Err(e)) => return Err(v("scheme-mismatch", "", e.to_string())),
+                Err(p) => return Err(v("search-panicked", seams::panic_class(&kernel::panic_message(&*p)), format!("sibling {}: {}", hex(sb), kernel::panic_message(&*p)))),
+            }
+        }
         for c in &compiled {
             let expect = if c.via == 2 { want_any } else { want };
             let got = match catch_unwind(AssertUnwindSafe(|| c.filter.execute(&ectx))) {
